@@ -104,7 +104,7 @@ EDITS = ["add-type", "remove-field", "add-field", "retype-field", "add-optional-
          "deprecation-reason", "add-union-member", "remove-union-member", "add-interface-implementation",
          "remove-interface-implementation", "add-directive", "remove-directive", "add-directive-location", "remove-directive-location",
          "add-directive-argument", "remove-directive-argument", "retype-directive-argument", "remove-type", "change-leaf-kind",
-         "mirror-nullability", "mirror-nullability", "rename-enum-value"]
+         "mirror-nullability", "mirror-nullability", "rename-enum-value", "refine-implementation-field", "refine-implementation-field"]
 
 
 def apply_edit(draw, s, kind, uid, protected=None):
@@ -258,6 +258,26 @@ def apply_edit(draw, s, kind, uid, protected=None):
         if _has_default_of(s, n):
             return None
         return _default_edit(draw, s, f, out, ["InputFieldDefaultValueChange"], [n, f["name"]])
+    if kind == "refine-implementation-field":
+        # an edit of an interface-declared field made on one implementing object only (the interface is untouched and the
+        # object still implements it): covariant nullability, an extra optional argument
+        cands = []
+        for o in objs:
+            for i in types[o].get("interfaces", []):
+                for f in types[i]["fields"]:
+                    of = next((x for x in types[o]["fields"] if x["name"] == f["name"]), None)
+                    if of is not None:
+                        cands.append((o, f, of))
+        if not cands:
+            return None
+        o, f, of = draw(st.sampled_from(cands))
+        if draw(st.booleans()) and not f["type"].endswith("!"):
+            old_t = of["type"]
+            of["type"] = old_t[:-1] if old_t.endswith("!") else old_t + "!"
+            comp = output_compatible(GS.parse_t(old_t), GS.parse_t(of["type"]))
+            return out(["FieldChangedType"], [o, of["name"]], not comp, comp, old_t.count("[") > 0)
+        of.setdefault("args", []).append({"name": "own%d" % uid, "type": "Int"})
+        return out(["FieldArgumentAdded"], [o, of["name"], "own%d" % uid], False)
     if kind == "rename-enum-value":
         # a member is renamed: clients lose the old name (breaking) and gain the new one; a code-built schema keeps the
         # member's internal value (cases() carries it over), which must not make the two look like the same member
@@ -559,7 +579,14 @@ def check_case(case, ctx=None):
             if ctx is not None:
                 ctx.event("operation-revalidated-on-new-schema")
             if r_new[0] == "errors":
-                vios.append(("C20/operation-breaks-without-BREAKING-change/%s" % "+".join(sorted(e["kind"] for e in case["edits"]))[:80],
+                msgs = [str(x) for x in r_new[1][1]]
+                why = "+".join(sorted(e["kind"] for e in case["edits"]))[:80]
+                if msgs and all("they return conflicting types" in m for m in msgs) and \
+                        any(e["kind"] in ("refine-implementation-field", "retype-field", "mirror-nullability") and e["compatible_retype"] for e in case["edits"]):
+                    # root cause: an output field became non-null on ONE of the object types a selection can resolve to, and the
+                    # operation selects it under one response key for several of them (SameResponseShape wants equal nullability)
+                    why = "response-shape-conflict-after-non-null-on-one-possible-type"
+                vios.append(("C20/operation-breaks-without-BREAKING-change/%s" % why,
                              "operation=%r errors=%r changes=%r" % (text[:200], [str(x)[:100] for x in r_new[1][1][:2]], ch[:4])))
                 break
     if ctx is not None:
